@@ -11,7 +11,7 @@ the guarding mutex AT THAT POSITION, and every call with the mutexes held at the
 `CJ.Gen.guardOf` says which mutex guards which field: the registry mutex `m` (`decoys`,
 `decoysTimeouts`, `Valid`, `regCount`, and the timeout record's `status` / `registrationTime`),
 `reloadMu` (`PhantomSelector`, `GeoIP`), `policyMu` (the parsed block / allow lists) and the
-statistics maps' `genMutex` / `lvMutex` / `ttMutex`.
+statistics maps' `genMutex` / `lvMutex` / `ttMutex`, and `ingestChanMu` (the pipeline buffer the statistics printer looks at).
 An access outside the function's own regions is covered only if EVERY call site of the function
 holds the mutex (directly, or because the calling function is itself only entered with it held).
 -/
